@@ -18,7 +18,7 @@ const maxInlineDepth = 10
 
 func isSpecHelper(f *types.Func) bool {
 	switch f.Name() {
-	case "old", "forallInt", "existsInt", "forallReal", "existsReal", "implies", "assert", "assume", "iff", "fresh", "memEq", "lemmaUse", "wfd", "bnd", "sameSlice", "sameSlice16", "iterStart", "allocd", "ghostRank", "rangeIndex", "inPlace", "same", "sharesMem", "wroteSeq", "wroteLast", "callCount", "callArgF", "callArgI", "callArgB", "rangeSlice":
+	case "old", "forallInt", "existsInt", "forallReal", "existsReal", "implies", "assert", "assume", "iff", "fresh", "memEq", "lemmaUse", "wfd", "bnd", "sameSlice", "sameSlice16", "iterStart", "allocd", "ghostRank", "rangeIndex", "inPlace", "same", "sharesMem", "wroteSeq", "wroteLast", "callCount", "callArgF", "callArgI", "callArgB", "callResF", "callResI", "callResB", "callSeen", "rangeSlice":
 		return f.Pkg() != nil && strings.Contains(f.Pkg().Path(), "tdewolff/canvas")
 	}
 	return false
@@ -1080,6 +1080,7 @@ func (x *Exec) callModular(s *State, fi *FuncInfo, ct *Contract, recv *Term, arg
 		x.obligeNamed(s, fmt.Sprintf("%s/call:%s#%d.requires#%d", x.top.Key, fi.Key, site, rq.Ord), "requires", g, x.pos(call.Pos()), rq.Text)
 		s.assume(g)
 	}
+	loggedAt := -1
 	if ct.Logged {
 		s.log = append(s.log, "@"+fi.Key)
 		// also in the ghost call log, with the argument terms (receiver first)
@@ -1093,6 +1094,7 @@ func (x *Exec) callModular(s *State, fi *FuncInfo, ct *Contract, recv *Term, arg
 			rec.lits = append(rec.lits, "")
 		}
 		s.calls = append(s.calls, rec)
+		loggedAt = len(s.calls) - 1
 	}
 	if !(ct.HasAssign && len(ct.Assigns) == 0) && !ct.Pure && !fi.pure {
 		// the callee may call out of the module itself: what it called is unknown here
@@ -1131,6 +1133,9 @@ func (x *Exec) callModular(s *State, fi *FuncInfo, ct *Contract, recv *Term, arg
 			continue
 		}
 		vals = append(vals, x.havocValue(s, "r_"+fi.Obj.Name(), rt))
+	}
+	if loggedAt >= 0 && loggedAt < len(s.calls) {
+		s.calls[loggedAt].res = vals
 	}
 	if ct.ResultPure != "" {
 		for i := 0; i < sig.Results().Len(); i++ {
@@ -1181,13 +1186,34 @@ func (x *Exec) applyAssigns(s *State, fi *FuncInfo, ct *Contract, env map[types.
 		x.havocHeap(s, k)
 		s.assume(Cmp("<=", old, s.heap[k]))
 	}
+	// mem(e) targets are havoc'd twice: first for the value e has BEFORE the call (the callee may write the old
+	// block and then re-point the header), then, after the field targets, for the new value of e
+	isMem := func(e ast.Expr) bool {
+		c, ok := e.(*ast.CallExpr)
+		if !ok {
+			return false
+		}
+		id, ok := c.Fun.(*ast.Ident)
+		return ok && id.Name == "mem"
+	}
+	for i, a := range ct.Assigns {
+		if a != "*" && isMem(ct.AssignsE[i]) {
+			x.havocLoc(s, fi, ct, env, ct.AssignsE[i])
+		}
+	}
 	for i, a := range ct.Assigns {
 		if a == "*" {
 			x.havocAllHeap(s)
 			continue
 		}
-		e := ct.AssignsE[i]
-		x.havocLoc(s, fi, ct, env, e)
+		if !isMem(ct.AssignsE[i]) {
+			x.havocLoc(s, fi, ct, env, ct.AssignsE[i])
+		}
+	}
+	for i, a := range ct.Assigns {
+		if a != "*" && isMem(ct.AssignsE[i]) {
+			x.havocLoc(s, fi, ct, env, ct.AssignsE[i])
+		}
 	}
 }
 
@@ -1477,6 +1503,34 @@ func (x *Exec) callSpecHelper(s *State, fn *types.Func, call *ast.CallExpr) []*T
 			return []*Term{IntLit(int64(n))}
 		}
 		return []*Term{x.freshVar("callCount", SInt)}
+	case "callSeen":
+		// does a call matching pat occur AFTER the last unknown stretch (gap) of the ghost call log that may hide such a
+		// call? A definite true/false about the visible suffix only (calls inside or before a gap are not claimed).
+		if tv, ok := x.tv(call.Args[0]); ok && tv.Value != nil && tv.Value.Kind() == constant.String {
+			return []*Term{BoolLit(x.findCall(s, constant.StringVal(tv.Value), -1) != nil)}
+		}
+		return []*Term{x.freshVar("callSeen", SBool)}
+	case "callResF", "callResI", "callResB":
+		// i-th result of the k-th matching call of a `logged` module function
+		want := map[string]*Sort{"callResF": SReal, "callResI": SInt, "callResB": SBool}[fn.Name()]
+		tv, ok := x.tv(call.Args[0])
+		kv, ok2 := x.tv(call.Args[1])
+		iv, ok3 := x.tv(call.Args[2])
+		if ok && ok2 && ok3 && tv.Value != nil && kv.Value != nil && iv.Value != nil && tv.Value.Kind() == constant.String {
+			k, _ := constant.Int64Val(kv.Value)
+			i, _ := constant.Int64Val(iv.Value)
+			if c := x.findCall(s, constant.StringVal(tv.Value), int(k)); c != nil && int(i) < len(c.res) && i >= 0 && c.res[i] != nil {
+				a := c.res[i]
+				if a.S == want {
+					return []*Term{a}
+				}
+				if want == SReal && a.S == SInt {
+					return []*Term{ToReal(a)}
+				}
+			}
+		}
+		x.note("ghost call log: %s not resolvable here", exprString(call))
+		return []*Term{x.freshVar("callRes", want)}
 	case "callArgF", "callArgI", "callArgB":
 		want := map[string]*Sort{"callArgF": SReal, "callArgI": SInt, "callArgB": SBool}[fn.Name()]
 		tv, ok := x.tv(call.Args[0])
